@@ -566,3 +566,77 @@ def row_alloc(check: Check, repo: Repo, rule: str = "ROW-ALLOC") -> None:
     check.ob(rule, measure, "measure(): b is the shorter sequence", bool(swaps),
              "a/b are swapped so that b_len <= len(self._input_list) bounds the column index" if swaps else
              "no swap making b the shorter sequence: the column index can exceed the row size")
+
+
+# -- round 3 ------------------------------------------------------------------------------------------------
+
+
+def fragment_recursion_guard(check: Check, repo: Repo, mods: list[Module], rule: str = "FRAGMENT-RECURSION") -> None:
+    check.rule(
+        rule,
+        "a function of the validation package that looks a fragment up (get_fragment) and then calls itself "
+        "(directly, or itself again for the fragment's children) follows fragment spreads, and documents may "
+        "contain cycles of any length: the function tests membership of the fragment name in a collection "
+        "before descending (`name in visited` -> return/continue) and puts the name into that collection "
+        "before the recursive call. A guard that only compares with the *current* fragment name stops "
+        "self-spreads but recurses forever on `A -> B -> A` (RecursionError out of validate())",
+    )
+    n = 0
+    for mod in mods:
+        for fn in mod.functions():
+            name = fn.name
+            looks_up = [c for c in walk_body(fn) if isinstance(c, ast.Call) and last_attr(c) in ("get_fragment", "_get_fragment")]
+            rec = [c for c in walk_body(fn) if isinstance(c, ast.Call) and last_attr(c) == name]
+            if not (looks_up and rec):
+                continue
+            n += 1
+            member = []
+            for t in walk_body(fn):
+                if isinstance(t, ast.Compare) and len(t.ops) == 1 and isinstance(t.ops[0], (ast.In, ast.NotIn)):
+                    member.append(unparse(t.comparators[0]))
+                elif isinstance(t, ast.Call) and isinstance(t.func, ast.Attribute) and t.func.attr in ("has", "__contains__"):
+                    member.append(unparse(t.func.value))  # the pair sets of the merge rule: has(...) / add(...)
+            marks = set()
+            for s_ in walk_body(fn):
+                if isinstance(s_, ast.Call) and isinstance(s_.func, ast.Attribute) and s_.func.attr in ("add", "append") :
+                    marks.add(unparse(s_.func.value))
+                if isinstance(s_, ast.Assign) and isinstance(s_.targets[0], ast.Subscript):
+                    marks.add(unparse(s_.targets[0].value))
+            # aliases `visited = self._visited`
+            alias = {a.targets[0].id: unparse(a.value) for a in walk_body(fn) if isinstance(a, ast.Assign) and len(a.targets) == 1
+                     and isinstance(a.targets[0], ast.Name) and isinstance(a.value, ast.Attribute)}
+            norm = lambda x: alias.get(x, x)  # noqa: E731
+            ok = any(norm(m) in {norm(k) for k in marks} for m in member)
+            check.ob(rule, fn, f"{qualname_of(fn)}: recursion through fragment spreads is guarded by a visited collection", ok,
+                     f"membership test and mark on `{next(m for m in member if norm(m) in {norm(k) for k in marks})}`" if ok else
+                     "no collection is both tested for the fragment name and extended before the recursive call")
+    if n < 2:
+        raise AnalysisError("FRAGMENT-RECURSION: recursive fragment followers not found")
+
+
+LEAF_CALLBACKS = {"coerce_input_value", "parse_value", "parse_literal", "coerce_input_literal", "coerce_output_value", "serialize"}
+
+
+def leaf_callback_wrap(check: Check, repo: Repo, rule: str = "LEAF-CALLBACK-WRAP") -> None:
+    check.rule(
+        rule,
+        "in the input coercion / input validation walks a custom scalar's parser is user code: every call "
+        "`leaf_type.<parse function>(...)` sits in a try that has a handler for Exception (an additional, "
+        "narrower handler for GraphQLError may come first). A handler list narrowed to "
+        "(GraphQLError, TypeError, ValueError) lets decimal.InvalidOperation or AttributeError from "
+        "uuid.UUID(123) leave graphql_sync as an exception",
+    )
+    n = 0
+    for mn, fname in (("utilities.coerce_input_value", "coerce_input_value"), ("utilities.coerce_input_value", "coerce_input_literal"),
+                      ("utilities.validate_input_value", "validate_input_value_impl"), ("utilities.validate_input_value", "validate_input_literal_impl")):
+        fn = repo.func(mn, fname)
+        for c in walk_body(fn):
+            if isinstance(c, ast.Call) and isinstance(c.func, ast.Attribute) and c.func.attr in LEAF_CALLBACKS \
+                    and isinstance(c.func.value, ast.Name) and "type" in c.func.value.id:
+                t = covered_by_try(c, {"Exception", "BaseException"})
+                n += 1
+                check.ob(rule, c, f"{fname}: {node_text(c, 60)}", t is not None,
+                         f"inside try/except Exception (line {t.lineno})" if t is not None else
+                         "no enclosing handler for Exception: an arbitrary exception of the user's parser escapes")
+    if n < 4:
+        raise AnalysisError("LEAF-CALLBACK-WRAP: leaf callbacks not found")
